@@ -27,7 +27,7 @@ P = {
          "5/C03"),
  "C04": (True,
          'runtime monitor: wire-first differential check - reference encoder writes conformant switch messages, the real parser reads them, extracted fields are compared with the recipe',
-         "Conformant switch-originated frames of every kind are produced by the independent encoder and given to the library's parser entry point; exported fields (and unexported ones by reflection) are extracted and compared field by field with the recipe, every differing field being reported separately. Saturated replies (more than a thousand records, matches of thousands of fields) and version-negotiation frames (hello and hello-failed errors with other version bytes) are included.",
+         "Conformant switch-originated frames of every kind are produced by the independent encoder and given to the library's parser entry point; exported fields (and unexported ones by reflection) are extracted and compared field by field with the recipe, every differing field being reported separately. Saturated replies (more than a thousand records, matches of thousands of fields) and version-negotiation frames (hello and hello-failed errors with other version bytes) are included. Every other frame is parsed from the worker's one reused receive buffer; failing library calls (errorNoise) precede one case in eight; one case in eight runs with the library's logger at trace level.",
          'Trusts the reference encoder as the description of a conforming switch. Known findings (OF1.0-shaped table/port/queue stats replies, dropped echo bodies, data-less packet-in, priority-tagged frames) are listed with witnesses.',
          "5/C04"),
  "C05": (True,
@@ -57,27 +57,27 @@ P = {
          "5/C09"),
  "C10": (True,
          'runtime monitor: event log at the stream boundary (scripted connection, consumer) on one logical clock, checked offline for exactly-once, integrity, causality, no-loss at logical quiescence, single error publication, buffer conservation and post-delivery immutability; Go race detector',
-         "Thousands of real MessageStreams are run over a scripted in-memory connection that cuts the byte stream by plan (every byte alone, inside each length prefix, mid-body, many frames per read), with eager/slow/bursty consumers, yields around parser calls, GOMAXPROCS 1..16 and connection failures after planned bytes. Each delivered message must equal the direct parse of exactly one frame, once, after the read that completed it; with the connection open nothing may be missing when every goroutine is parked and the buffer pool must be whole; on failure exactly the injected error is published once; every delivered message is re-dumped at the end. The race detector watches the whole run. One case in nine runs in virtual time (testing/synctest under the pre-installed go1.26.8): the consumer stays away for a second to a day between deliveries while every timer the library arms fires in logical order; reads that return no bytes and no error are part of the plans; a constructor that never returns is a verdict.",
+         "Thousands of real MessageStreams are run over a scripted in-memory connection that cuts the byte stream by plan (every byte alone, inside each length prefix, mid-body, many frames per read), with eager/slow/bursty consumers, yields around parser calls, GOMAXPROCS 1..16 and connection failures after planned bytes. Each delivered message must equal the direct parse of exactly one frame, once, after the read that completed it; with the connection open nothing may be missing when every goroutine is parked and the buffer pool must be whole; on failure exactly the injected error is published once; every delivered message is re-dumped at the end. The race detector watches the whole run. One case in nine runs in virtual time (testing/synctest under the pre-installed go1.26.8): the consumer stays away for a second to a day between deliveries while every timer the library arms fires in logical order; reads that return no bytes and no error are part of the plans; a constructor that never returns is a verdict. One frame in four is a controller-originated message (packet-outs with payloads, flow-mods, group-mods, bundles, requests), as a switch-side or proxy user receives them; one case in eight runs with the library's logger at trace level.",
          'Schedules are those the Go scheduler produced under the pacing plans (evidence reports distinct delivery orders, concurrent parsers, pool generations). Delivery of frames completed before a failure is not demanded. Pool conservation reads unexported state by reflection and is skipped (reported) if the layout changes.',
          "5/C10"),
  "C11": (True,
          'runtime monitor: every Write of the real writer goroutine is recorded by the scripted connection; the written byte stream is re-framed and compared offline with the expected multiset and per-producer order; Go race detector',
-         "1..64 producer goroutines submit uniquely identified messages of all sizes to a real MessageStream; the recorded written bytes are re-framed by header length and must be exactly the expected encodings, each once, contiguous, with each producer's sequence numbers increasing; nothing may be missing at logical quiescence. The stream's exported Version field is set, raw pre-encoded frames with other version bytes are submitted, and submitted objects are re-encoded after the run (sending must not change them). One case in eight runs in virtual time (testing/synctest under the pre-installed go1.26.8) with producers that pause for a second to a day between submissions, so the connection sits idle for longer than any timer an implementation might arm.",
+         "1..64 producer goroutines submit uniquely identified messages of all sizes to a real MessageStream; the recorded written bytes are re-framed by header length and must be exactly the expected encodings, each once, contiguous, with each producer's sequence numbers increasing; nothing may be missing at logical quiescence. The stream's exported Version field is set, raw pre-encoded frames with other version bytes are submitted, and submitted objects are re-encoded after the run (sending must not change them). One case in eight runs in virtual time (testing/synctest under the pre-installed go1.26.8) with producers that pause for a second to a day between submissions, so the connection sits idle for longer than any timer an implementation might arm. Full-duplex streams with a long inbound burst have an application that takes nothing from Inbound until everything submitted was written: a writer that waits for the inbound side to be consumed is reported as a wedge at quiescence.",
          "Expected bytes are the library's own encoding of a twin. No write errors are injected (the writer exits the process on error by design).",
          "5/C11"),
  "C12": (True,
          'runtime monitors: reflective object-graph walk for slices aliasing the input array, and differential dump/re-encoding before and after overwriting the input',
-         "Every parseable frame kind (incl. packet-in payload chains, vendor and bundle nesting) is parsed from a window of a larger array; monitor A reports any slice in the result's object graph whose backing array overlaps the input array; monitor B overwrites the whole array twice and requires the deep dump and the re-encoding to be unchanged. The same monitors run on whatever else the parser accepts: bundle-adds around message kinds the library does not decode and a PRNG-chosen handful of hostile variants of every fourth frame.",
+         "Every parseable frame kind (incl. packet-in payload chains, vendor and bundle nesting) is parsed from a window of a larger array; monitor A reports any slice in the result's object graph whose backing array overlaps the input array; monitor B overwrites the whole array twice and requires the deep dump and the re-encoding to be unchanged. The same monitors run on whatever else the parser accepts: bundle-adds around message kinds the library does not decode and a PRNG-chosen handful of hostile variants of every fourth frame. One frame in three is parsed a second time from the recycled buffer it was received into before; packet-in payloads include real LLDPDUs behind ethertype 0x88cc.",
          'Only what is reachable from the parser entry point. The walk covers what reflection reaches (unexported fields included).',
          "5/C12"),
  "C13": (True,
          'runtime monitor: all histories over {size query, encode} up to length 4 plus longer PRNG histories on fresh builds; outputs compared across histories; children re-encoded after their containers',
-         "For each recipe fresh values go through all 30 short histories and PRNG histories of size queries and encodings; every size answer and every encoding must agree across all histories, and children's standalone encodings must be unchanged after their containers were sized/encoded twice. Also: history independence (encode, edit exported fields, encode again = edit, encode), the previous case's value re-encoded after everything the current case did, decoders run on other constructor-made values in between, constructor-default and hand-built (derived fields unset) values. Containers are also sized and encoded repeatedly around pre-encoded raw children (util.Buffer with a stale length field of its own), which must still hold the bytes they were given.",
+         "For each recipe fresh values go through all 30 short histories and PRNG histories of size queries and encodings; every size answer and every encoding must agree across all histories, and children's standalone encodings must be unchanged after their containers were sized/encoded twice. Also: history independence (encode, edit exported fields, encode again = edit, encode), the previous case's value re-encoded after everything the current case did, decoders run on other constructor-made values in between, constructor-default and hand-built (derived fields unset) values. Containers are also sized and encoded repeatedly around pre-encoded raw children (util.Buffer with a stale length field of its own), which must still hold the bytes they were given. DHCP/LLDP encodes are preceded by an encode of the same value into a destination that is too short; values written as struct literals over exported fields (no constructor ran) are part of the corpus.",
          'Compares outputs only (never internal state); values complete before the first query.',
          "5/C13"),
  "C14": (True,
          'runtime monitors: injectivity check over logged (goroutine, draw, id) events from every id route, sequential-vs-concurrent differential over independent work units, Go race detector',
-         "2..64 goroutines released together draw millions of ids per run through all 16 routes (contention measured as adjacent ids owned by different goroutines) and all must be pairwise distinct, also across cases in the process; independent build/encode/parse/dump work units must give concurrently exactly what they gave sequentially; the race detector reports any unsynchronised access to library state.",
+         "2..64 goroutines released together draw millions of ids per run through all 16 routes (contention measured as adjacent ids owned by different goroutines) and all must be pairwise distinct, also across cases in the process; independent build/encode/parse/dump work units must give concurrently exactly what they gave sequentially; the race detector reports any unsynchronised access to library state. Failing library calls (errorNoise) run interleaved with the concurrent pass; fresh read-only values (range objects, field headers) are observed concurrently by all goroutines; units decode into constructor-made values and then build and encode a fresh value of the same kind.",
          'Schedules are those produced in the run. Distinctness, not monotonicity, is demanded.',
          "5/C14"),
  "C15": (True,
@@ -92,12 +92,12 @@ P = {
          "5/C16"),
  "C17": (True,
          'runtime monitor: differential check of the real builder against an independent big-integer placement model over generated windows, values, types and calling conventions',
-         "All 528 windows of all 16 registers (exhaustively) and edge/PRNG/beyond-field windows of every other fixed-width field are passed to the real generic builder with in-range and out-of-range values in every supported Go type; the result (error or bytes) is compared with a big-integer model, with the dedicated register constructor, and the caller's arguments are compared before/after.",
+         "All 528 windows of all 16 registers (exhaustively) and edge/PRNG/beyond-field windows of every other fixed-width field are passed to the real generic builder with in-range and out-of-range values in every supported Go type; the result (error or bytes) is compared with a big-integer model, with the dedicated register constructor, and the caller's arguments are compared before/after. Window arguments are passed in every integer type that can hold them and values in every type the constraint admits (uint, uintptr, named integer and byte-slice types); very wide values (byte counts around multiples of 256, beyond 64 KiB) are rejected or not; the arguments of the last twelve calls are re-read after every call.",
          'Trusts the big-integer model and the reference width table; the one-argument calling convention is only checked for safety (its window is not defined by the property).',
          "5/C17"),
  "C18": (True,
          'runtime monitor: exhaustive enumeration of builder states/transitions against a last-call-per-flag reference model',
-         'All 6561 x 16 state transitions and all call sequences of length <= 4 are executed on the real builder and the encoded ct_state match field is compared with the reference model after every call; longer PRNG sequences add depth. The finite families are swept completely on every run.',
+         'All 6561 x 16 state transitions and all call sequences of length <= 4 are executed on the real builder and the encoded ct_state match field is compared with the reference model after every call; longer PRNG sequences add depth. The finite families are swept completely on every run. Builders are also made without the constructor (new, literal, embedded by value).',
          'Trusts the 10-line reference model and the OVS bit positions; observes only the encoded field (what a switch would see).',
          "5/C18"),
  "C19": (True,
